@@ -122,6 +122,31 @@ func GoodErrSentinel(r io.Reader, p []byte) (int, error) {
 	return n, nil
 }
 
+// tagged switch on the error: every class of outcome is handled / one is dropped
+func GoodErrSwitch(r io.Reader, p []byte) (int, error) {
+	n, err := r.Read(p)
+	switch err {
+	case nil:
+		return n, nil
+	case io.EOF:
+		return 0, nil
+	default:
+		return 0, err
+	}
+}
+
+func BadErrSwitch(r io.Reader, p []byte) (int, error) {
+	n, err := r.Read(p)
+	switch err {
+	case nil:
+		return n, nil
+	case io.EOF:
+		return 0, nil
+	default:
+		return n, nil
+	}
+}
+
 func GoodErrLoop(r io.Reader, p []byte) (total int, err error) {
 	var n int
 	for err == nil {
